@@ -7,6 +7,7 @@ usage: python -m harness.drivers.d_reg IN.ndjson OUT.ndjson
 """
 import json, os, sys, warnings, collections, multiprocessing as mp
 
+from harness.drivers import pmap
 import optree
 from optree.registry import __GLOBAL_NAMESPACE as GLOBAL
 
@@ -201,8 +202,8 @@ def work(line):
 def main():
     inp, outp = sys.argv[1], sys.argv[2]
     lines = list(open(inp))
-    with mp.Pool(int(os.environ.get('VERIF_PROCS', '16'))) as pool, open(outp, 'w') as fh:
-        for res in pool.imap(work, lines, chunksize=8):
+    with open(outp, 'w') as fh:
+        for res in pmap(work, lines, init=None, chunksize=8):
             fh.write(res + '\n')
 
 
